@@ -44,6 +44,14 @@ theorem ensureImpl_cases (s : St) (g : Nat) (h : Handle) (hg : aget s.G g = some
     intro k hk
     simp [allocImpl, aget_aset_other _ _ _ _ hk]
 
+/-! ### the refusal `owned` of move assignment -/
+
+/-- the refusal `owned` of move assignment `masgG j i` (source `i` of flavour `fl`; not for the `accumulated`
+    flavours, whose move assignment is a copy assignment): the old slot list of the destination, which the
+    assignment releases, may own the source, or (trackable flavours) the destination -/
+def masgOwned (s : St) (fl : Flavour) (j i : Nat) : Bool :=
+  s.ownedG.any (fun p => p.2 = i) || (fl.isTrackable && s.ownedG.any (fun p => p.2 = j))
+
 /-! ### `mkFun` frame: only the `everFwd` mark of a handle may change -/
 
 theorem mkFun_frame (s s' : St) (isVoid : Bool) (spec : FSpec) (fn : Fun) (h : mkFun s isVoid spec = .ok (fn, s')) :
@@ -87,14 +95,16 @@ theorem mkFun_frame (s s' : St) (isVoid : Bool) (spec : FSpec) (fn : Fun) (h : m
     · rename_i h0 hg0
       split at h
       · cases h
-      · simp at h; obtain ⟨_, rfl⟩ := h
-        refine ⟨rfl, rfl, rfl, rfl, ?_⟩
-        intro g hd hg
-        by_cases e : g = g0
-        · subst e
-          rw [hg0] at hg; cases hg
-          exact ⟨{ h0 with everFwd := true }, by simp, rfl, rfl, rfl, rfl, rfl⟩
-        · exact ⟨hd, by simp [aget_aset_other _ _ _ _ e, hg], rfl, rfl, rfl, rfl, rfl⟩
+      · split at h
+        · cases h
+        · simp at h; obtain ⟨_, rfl⟩ := h
+          refine ⟨rfl, rfl, rfl, rfl, ?_⟩
+          intro g hd hg
+          by_cases e : g = g0
+          · subst e
+            rw [hg0] at hg; cases hg
+            exact ⟨{ h0 with everFwd := true }, by simp, rfl, rfl, rfl, rfl, rfl⟩
+          · exact ⟨hd, by simp [aget_aset_other _ _ _ _ e, hg], rfl, rfl, rfl, rfl, rfl⟩
   | ownT fid t =>
     simp only [mkFun] at h
     split at h
@@ -105,6 +115,15 @@ theorem mkFun_frame (s s' : St) (isVoid : Bool) (spec : FSpec) (fn : Fun) (h : m
     split at h
     · cases h
     · simp [St.fresh] at h; obtain ⟨_, rfl⟩ := h; exact ⟨rfl, rfl, rfl, rfl, triv⟩
+  | ownG fid g0 =>
+    simp only [mkFun] at h
+    split at h
+    · cases h
+    · split at h
+      · cases h
+      · split at h
+        · cases h
+        · simp [St.fresh] at h; obtain ⟨_, rfl⟩ := h; exact ⟨rfl, rfl, rfl, rfl, triv⟩
   | bad => simp [mkFun] at h
 
 /-! ### `nullConnsList` -/
@@ -154,6 +173,11 @@ theorem nullConnsList_K_entry (cids : List Nat) (s : St) (c : Nat) :
     | some p => simp [nullFL_cons]
 
 theorem nullConnsList_T (cs : List Nat) (s : St) : (nullConnsList s cs).T = s.T := by
+  induction cs generalizing s with
+  | nil => rfl
+  | cons c t ih => simp [nullConnsList, List.foldl] at ih ⊢; rw [ih]; rfl
+
+theorem nullConnsList_ownedG (cs : List Nat) (s : St) : (nullConnsList s cs).ownedG = s.ownedG := by
   induction cs generalizing s with
   | nil => rfl
   | cons c t ih => simp [nullConnsList, List.foldl] at ih ⊢; rw [ih]; rfl
